@@ -215,14 +215,15 @@ type sched struct {
 	jumper  *thread // the sleeper woken by the last clock jump
 	swCost  int
 	// happens-before hashing (hb.go)
-	keys    bool
-	chooser *thread // the thread on whose behalf choose() is being called (nil: scheduling decision)
-	visit   func(i int, k Key, cost int) bool
-	ids     map[unsafe.Pointer]uint64
-	at      map[unsafe.Pointer]*atState
-	objSum  hv
-	logH    hv
-	cost    int
+	mapChoices bool // rt.SetMapOrderChoices
+	keys       bool
+	chooser    *thread // the thread on whose behalf choose() is being called (nil: scheduling decision)
+	visit      func(i int, k Key, cost int) bool
+	ids        map[unsafe.Pointer]uint64
+	at         map[unsafe.Pointer]*atState
+	objSum     hv
+	logH       hv
+	cost       int
 }
 
 var (
